@@ -119,6 +119,17 @@ func (brr *BalanceRR) Init(conf cluster_table_conf.SubClusterBackend) {
 func (brr *BalanceRR) SetSlowStart(ssTime int) {
 	brr.Lock()
 	brr.slowStartTime = ssTime
+	if ssTime <= 0 {
+		// slow start switched off: checkSlowStart no longer updates any ramp, so a
+		// backend that is still ramping would keep its partial weight for ever.
+		// Finish running ramps now.
+		for _, backendRR := range brr.backends {
+			if backendRR.inSlowStart {
+				backendRR.weight = backendRR.weightSS.final
+				backendRR.inSlowStart = false
+			}
+		}
+	}
 	brr.Unlock()
 }
 
